@@ -679,7 +679,29 @@ func genC28(g *Gen, idx int) *Plan {
 	cp.Ops = ops
 	// gateway behaviour
 	classOf := map[string]string{"register": "REGISTER", "subscribe": "SUBSCRIBE", "unsubscribe": "UNSUBSCRIBE", "publish1": "PUBLISH", "publish2": "PUBLISH", "ping": "PINGREQ", "sleep": "DISCONNECT", "disconnect": "DISCONNECT", "close": "DISCONNECT", "publish0": "PUBLISH"}
-	switch g.Intn(6) {
+	switch g.Intn(9) {
+	case 6: // answers a retransmittable step with the *previous* acknowledgement again, every time
+		switch g.Intn(3) {
+		case 0: // PUBREC again for every PUBREL (no PUBCOMP ever)
+			p.SGW.Rules = append(p.SGW.Rules, SGWRule{On: "PUBREL", Act: "reply", CopyID: true, Reply: []refsn.Pkt{{Type: refsn.PUBREC}}})
+		case 1: // every acknowledgement twice
+			for _, cl := range []string{"PUBLISH", "REGISTER", "SUBSCRIBE", "PINGREQ"} {
+				rep := map[string]refsn.Pkt{"PUBLISH": {Type: refsn.PUBACK}, "REGISTER": {Type: refsn.REGACK, TopicID: 9}, "SUBSCRIBE": {Type: refsn.SUBACK}, "PINGREQ": {Type: refsn.PINGRESP}}[cl]
+				p.SGW.Rules = append(p.SGW.Rules, SGWRule{On: cl, Act: "also", CopyID: true, Reply: []refsn.Pkt{rep}})
+			}
+		case 2: // CONNACK again and again
+			for k := 0; k < 5; k++ {
+				p.SGW.Ops = append(p.SGW.Ops, PeerOp{AtMs: g.Range(50, 3000), Pkt: refsn.Pkt{Type: refsn.CONNACK}})
+			}
+		}
+	case 7: // DISCONNECT from the gateway again and again (also while the client sleeps), far beyond every bound
+		every := g.Range(300, 2500)
+		for at := g.Range(100, 1500); at < 150000; at += every {
+			p.SGW.Ops = append(p.SGW.Ops, PeerOp{AtMs: at, Pkt: refsn.Pkt{Type: refsn.DISCONNECT}})
+		}
+	case 8: // an API call in the wrong state first (Sleep before Connect), later a DISCONNECT from the gateway
+		cp.Ops = append([]ClientOp{{Op: "dial"}, {Op: "sleep", DurMs: 1000}}, cp.Ops[1:]...)
+		p.SGW.Ops = append(p.SGW.Ops, PeerOp{AtMs: g.Range(500, 2500), Pkt: refsn.Pkt{Type: refsn.DISCONNECT}})
 	case 0: // answers everything
 	case 1: // silent for the class under test
 		p.SGW.Rules = append(p.SGW.Rules, SGWRule{On: classOf[call], Act: "ignore"})
@@ -698,6 +720,9 @@ func genC28(g *Gen, idx int) *Plan {
 	}
 	n := int64(cp.RetryCount) + 1
 	p.Cfg.HorizonMs = 3000 + n*cp.ConnectTimeoutMs + 4*2*n*cp.RetryDelayMs + 5000 + 61000 + 10000
+	if len(p.SGW.Ops) > 20 {
+		p.Cfg.HorizonMs += 90000
+	}
 	return p
 }
 
